@@ -24,10 +24,10 @@ TSeen == Ev("seen") /\ Id \in replied /\ Id \notin seen /\ seen' = seen \cup {Id
 TReset == /\ Ev("reset") /\ serve = "returned" /\ stop = "returned" /\ accepted \subseteq seen
           /\ next' = 1 /\ interest' = TRUE /\ pending' = <<>> /\ cb' = 0 /\ subLive' = TRUE
           /\ workC' = <<>> /\ workClosed' = FALSE /\ wk' = [w \in Workers |-> 0]
-          /\ serve' = "running" /\ stop' = "idle" /\ barrierDone' = FALSE
+          /\ serve' = "starting" /\ stop' = "idle" /\ barrierDone' = FALSE
           /\ accepted' = {} /\ lateSet' = {} /\ processed' = [m \in Msgs |-> 0] /\ replied' = {} /\ panic' = FALSE
           /\ seen' = {} /\ Adv
-TSilent == /\ \/ CbTake \/ CbPush \/ Drain \/ SubGone \/ Flush \/ Barrier \/ DoneSend \/ CloseQ
+TSilent == /\ \/ ServeReady \/ CbTake \/ CbPush \/ Drain \/ SubGone \/ Flush \/ Barrier \/ DoneSend \/ CloseQ
               \/ \E w \in Workers : Handoff(w) \/ WTake(w) \/ WExit(w)
            /\ UNCHANGED <<l, seen>>
 TNext == TPub \/ TStart \/ TEnd \/ TStopCall \/ TStopRet \/ TServeRet \/ TSeen \/ TReset \/ TSilent
